@@ -138,8 +138,12 @@ def main():
 
     # ---- the queries
     work = []
+    skipped_queries = []
     for qu in mod.QUERIES:
         if only and qu["name"] not in only:
+            continue
+        if qu.get("skip_if_excluded") in active:
+            skipped_queries.append(qu["name"])     # its whole region is a listed known finding whose witness still fails
             continue
         shards = qu["shards"][tier] if isinstance(qu["shards"], dict) else qu["shards"]
         for sh in shards:
@@ -231,6 +235,7 @@ def main():
             "solver_cpu_s_total": round(sum(float(r.get("cpu_s", 0)) + float(r.get("twin_cpu_s", 0)) for r in results), 1),
             "engines": {"crosshair-tool": xh_ver, "z3": z3.get_version_string()},
             "known_findings": kf_report,
+            "queries_not_run_because_their_region_is_a_known_finding": skipped_queries,
             "inconclusive": [list(x) for x in inconclusive][:10],
         },
         "assumptions": meta.get("assumptions", []) + ["analysed source tree: " + os.path.join(REPO, "src")],
